@@ -114,10 +114,23 @@ impl Peer {
         dir: PathBuf,
         configuration: &Configuration,
     ) -> Result<Peer, String> {
+        Self::start_full(name, model, dir, configuration, None).await
+    }
+
+    /// `meeting_pub_key`: the x25519 public key stored in the instance's own sys.Peer row
+    /// (C19 passes the real meeting secret's public key; other checks do not use it)
+    pub async fn start_full(
+        name: &str,
+        model: &str,
+        dir: PathBuf,
+        configuration: &Configuration,
+        meeting_pub_key: Option<[u8; 32]>,
+    ) -> Result<Peer, String> {
         std::fs::create_dir_all(&dir).map_err(|e| e.to_string())?;
         let secret = secret_for(name);
         let signing_key = signing_key_for_secret(&secret);
-        let pub_key = *blake3::hash(format!("dv pubkey {}", name).as_bytes()).as_bytes();
+        let pub_key = meeting_pub_key
+            .unwrap_or_else(|| *blake3::hash(format!("dv pubkey {}", name).as_bytes()).as_bytes());
         let events = EventService::new();
         let (db, verifying_key, private_room) = GraphDatabaseService::start(
             APP,
